@@ -34,6 +34,47 @@ class MachineryError(Exception):
 _scratch = []
 
 
+def run_apalache_inductive(module, cinit, indinit, inv, init="Init", timeout=240):
+    """Inductive-invariant check with Apalache (unbounded in the length of behaviours for the instance fixed by `cinit`):
+    (1) Init => inv at length 0, (2) indinit /\ Next => inv' at length 1.  Returns a dict with "status":
+    "proved" | "refuted" (the invariant is not inductive / does not hold initially: a MODEL-level result, never a verdict
+    about the code) | "unavailable" (apalache-mc missing, timeout, tool error: reported, not fatal)."""
+    exe = shutil.which("apalache-mc")
+    res = {"module": module, "invariant": inv, "instance": cinit, "status": "unavailable", "wall_s": 0.0}
+    if not exe:
+        res["detail"] = "apalache-mc not on PATH"
+        return res
+    wd = scratch("apa-")
+    for f in os.listdir(SPEC):
+        if f.endswith(".tla"):
+            shutil.copy(os.path.join(SPEC, f), wd)
+    t0 = time.time()
+    steps = (("base", init, 0), ("step", indinit, 1))
+    for name, ini, length in steps:
+        cmd = [exe, "check", "--out-dir=" + os.path.join(wd, "out"), "--cinit=" + cinit, "--init=" + ini, "--inv=" + inv,
+               "--length=%d" % length, module + ".tla"]
+        try:
+            p = subprocess.run(cmd, cwd=wd, stdout=subprocess.PIPE, stderr=subprocess.STDOUT, timeout=timeout, text=True,
+                               errors="replace")
+        except subprocess.TimeoutExpired:
+            res["detail"] = "%s: timeout after %ds" % (name, timeout)
+            res["wall_s"] = round(time.time() - t0, 2)
+            return res
+        out = p.stdout
+        if "The outcome is: NoError" in out:
+            continue
+        res["wall_s"] = round(time.time() - t0, 2)
+        if "The outcome is: Error" in out and "violated" in out:
+            res["status"] = "refuted"
+            res["detail"] = "%s case: %s" % (name, " ".join(l.strip() for l in out.splitlines() if "violated" in l)[:300])
+        else:
+            res["detail"] = "%s case: tool error: %s" % (name, out[-300:])
+        return res
+    res["status"] = "proved"
+    res["wall_s"] = round(time.time() - t0, 2)
+    return res
+
+
 def scratch(prefix="verif-"):
     d = tempfile.mkdtemp(prefix=prefix)
     _scratch.append(d)
